@@ -311,6 +311,55 @@ theorem extent_preserves_totals (rc : α) (b c0 : List α) (stoich : List Int) (
     dot b (extentState c0 stoich rc) = dot b c0 := by
   rw [dot_extent rc b c0 stoich hl, hb]; ring
 
+/-! ### the grid of initial compositions behind `EqSystem.solve(init, varied)` / `roots` -/
+
+/-- **varied_grid_point_spec** (`ReactionSystem.per_substance_varied`).  For a `varied` dict with distinct substance keys (given in
+    ANY order), the row of the grid at multi-index `idx` exists and is the base composition in which every varied substance `j`
+    carries the level selected by the index on ITS axis — axis `a` belongs to the `a`-th varied substance in SUBSTANCE order, which is
+    what the returned `varied_keys` (strictly increasing) and `shape` document; all other substances keep their base value.
+    Hence a result stored at `conc[idx]` is the equilibrium of exactly the initial state that `varied_keys` documents for `idx`. -/
+theorem varied_grid_point_spec {β : Type} (ns : Nat) (base : List β) (varied : List (Nat × List β)) (idx : List Nat)
+    (hbase : base.length = ns) (hdist : varied.Pairwise (fun p q => p.1 ≠ q.1)) (hkeys : ∀ kv ∈ varied, kv.1 < ns)
+    (hlen : idx.length = (variedKeys ns varied).length)
+    (hidx : ∀ (a i n : Nat), idx[a]? = some i → (variedShape ns varied)[a]? = some n → i < n) :
+    (variedKeys ns varied).Pairwise (· < ·) ∧
+    ∃ row, gridPoint (variedKeys ns varied) idx base varied = .ok row ∧ row.length = ns ∧
+      (∀ j, j ∉ variedKeys ns varied → row[j]? = base[j]?) ∧
+      (∀ (a j i : Nat) (vals : List β), (variedKeys ns varied)[a]? = some j → idx[a]? = some i → varied.lookup j = some vals →
+        row[j]? = vals[i]? ∧ i < vals.length) := by
+  refine ⟨variedKeys_sorted ns varied, ?_⟩
+  have shape_at : ∀ (a : Nat) (kv : Nat × List β), kv ∈ varied → (variedKeys ns varied)[a]? = some kv.1 →
+      (variedShape ns varied)[a]? = some kv.2.length := by
+    intro a kv hkv ha
+    simp only [variedShape, List.getElem?_map, ha, Option.map_some, lookup_of_pairwise varied kv hdist hkv]
+  have hk : ∀ kv ∈ varied, ∃ (a i : Nat) (v : β), (variedKeys ns varied)[a]? = some kv.1 ∧ idx[a]? = some i ∧ kv.2[i]? = some v := by
+    intro kv hkv
+    have hmem : kv.1 ∈ variedKeys ns varied := (mem_variedKeys ns varied kv.1).mpr ⟨hkeys kv hkv, kv, hkv, rfl⟩
+    obtain ⟨a, ha, hget⟩ := List.getElem_of_mem hmem
+    have ha' : (variedKeys ns varied)[a]? = some kv.1 := by rw [List.getElem?_eq_getElem ha, hget]
+    have hai : a < idx.length := by omega
+    have hi : idx[a]? = some idx[a] := List.getElem?_eq_getElem hai
+    have hlt := hidx a idx[a] kv.2.length hi (shape_at a kv hkv ha')
+    exact ⟨a, idx[a], kv.2[idx[a]], ha', hi, List.getElem?_eq_getElem hlt⟩
+  obtain ⟨row, hrow, hl, hun, hva⟩ := gridPoint_spec (variedKeys ns varied) idx (variedKeys_nodup ns varied) varied base hdist hk
+  refine ⟨row, hrow, by omega, ?_, ?_⟩
+  · intro j hj
+    apply hun
+    intro kv hkv hkj
+    exact hj ((mem_variedKeys ns varied j).mpr ⟨hkj ▸ hkeys kv hkv, kv, hkv, hkj⟩)
+  · intro a j i vals ha hi hlook
+    have hmem : j ∈ variedKeys ns varied := List.mem_of_getElem? ha
+    obtain ⟨_, kv, hkv, hkj⟩ := (mem_variedKeys ns varied j).mp hmem
+    have hl2 := lookup_of_pairwise varied kv hdist hkv
+    rw [hkj, hlook] at hl2
+    have hvals : vals = kv.2 := Option.some.inj hl2
+    subst hvals
+    have hlt := hidx a i kv.2.length hi (shape_at a kv hkv (hkj ▸ ha))
+    refine ⟨?_, hlt⟩
+    rw [← hkj]
+    rw [hva kv hkv a i kv.2[i] (hkj ▸ ha) hi (List.getElem?_eq_getElem hlt) (by rw [hbase]; exact hkeys kv hkv)]
+    exact (List.getElem?_eq_getElem hlt).symm
+
 /-! ### composition with C07: the exact-arithmetic core of "success ∧ sane ⇒ genuine" -/
 
 /-- the composition dicts of a C07 system in the representation `upper_conc_bounds` is modelled with -/
@@ -369,6 +418,10 @@ example : fwCond (α := ℚ) fwRtolDefault [0, 0, 1] [⟨[(2, 1)], [(0, 1), (1, 
     ⟨[(2, 1)], [(0, 1), (1, 1)], [], []⟩ 4 [1, 2, 0] = .ok false ∧
     dissolved (α := ℚ) [0, 0, 1] [⟨[(2, 1)], [(0, 1), (1, 1)], [], []⟩] [1, 2, 0] = .ok [1, 2, 0] := by
   constructor <;> decide +kernel
+
+/-- a 2 × 2 grid given in the order (substance 2, substance 0): axis 0 is substance 0, axis 1 substance 2 -/
+example : perSubstanceVaried (α := ℚ) 3 [2, 3, 5] [(2, [5, 7]), (0, [1, 4])] =
+    .ok ([0, 2], [2, 2], [[1, 3, 5], [1, 3, 7], [4, 3, 5], [4, 3, 7]]) := by decide +kernel
 
 /-- water / H⁺ / OH⁻: bounds (H: 2·1 + 1/2 = 5/2, O: 1) and a sane / an insane vector -/
 example : upperConcBounds (α := ℚ) [[(1, 2), (8, 1)], [(0, 1), (1, 1)], [(0, -1), (1, 1), (8, 1)]] [1, 1 / 2, 0]
